@@ -139,7 +139,9 @@ def feats(stride=1, skip=0, atoms=None, chunk=None, extra=(), N=None):
     if stride != 1:
         f.append("stride>1")
     if skip:
-        f.append("skip=N" if N is not None and skip >= N else "skip>0")
+        f.append("skip>0")
+        if N is not None and skip >= N:
+            f.append("skip=N")  # the boundary of the quantifier skip in [0, n_frames]: nothing is left to load
     if atoms is not None:
         f.append("atom_indices")
     return tuple(f) + tuple(extra)
@@ -224,13 +226,18 @@ def case_iterload(rec, path, fmt, top, full, N, seed, c, s, k, a):
         return
     inp = {"check": "iterload", "fmt": fmt, "N": N, "seed": seed, "chunk": c, "stride": s, "skip": k, "atoms": a}
     call = f"md.iterload({fmt} with {N} frames, chunk={c}, stride={s}, skip={k}, atom_indices={a})"
+    limit = N + 3  # a correct iteration yields at most ceil(N/c) <= N chunks; an iterator that keeps yielding is cut off here
     try:
-        chunks = list(md.iterload(path, chunk=c, stride=s, skip=k, atom_indices=a, **kw_top(fmt, top)))
+        chunks = list(itertools.islice(md.iterload(path, chunk=c, stride=s, skip=k, atom_indices=a, **kw_top(fmt, top)), limit))
     except Exception as e:
         rec.fail("iterload", "iterload-raises", "iterload", f, fmt, f"{call} raised {type(e).__name__}: {e}", inp, tail=type(e).__name__)
         return
     idx = list(range(k, N, s))
     sizes = [len(ch) for ch in chunks]
+    if len(chunks) >= limit:
+        ids = [full.identify(ch.xyz, a) if ch.xyz.shape[1] == (N_ATOMS if a is None else len(a)) else None for ch in chunks]
+        rec.fail("iterload", "iterload-does-not-terminate", "iterload", f, fmt, f"{call}: still yielding after {limit} chunks of a {N}-frame file; frames so far {ids}", inp, ids, idx)
+        return
     # concatenation first (wrong frames is the more informative clause), then the sizes
     got = []
     for ch in chunks:
@@ -336,22 +343,43 @@ def _frame_ids(res, fmt):
     return [int(round(float(v) / unit - 0.5)) for v in xyz[:, 0, 0]]
 
 
-def case_window(rec, path, fmt, N, seed, k, n, s):
+_SEEKABLE = {}
+
+
+def _offers_seek(path, fmt):
+    if fmt not in _SEEKABLE:
+        try:
+            h = _open(path, fmt)
+            try:
+                h.seek(0)
+                _SEEKABLE[fmt] = True
+            except NotImplementedError:
+                _SEEKABLE[fmt] = False
+            finally:
+                h.close()
+        except Exception:
+            _SEEKABLE[fmt] = True
+    return _SEEKABLE[fmt]
+
+
+def case_window(rec, path, fmt, N, seed, k, n, s, explicit_seek0=False):
     """seek(k); read(n, stride=s) must return frames k, k+s, .. (n of them unless the file ends), and leave the cursor
     at the frame that a chunked strided reader continues with: the next read(1) returns frame k+n*s, and tell() names the
     frame the next read returns."""
     f = feats(stride=s, skip=k)
-    if rec.subsumed("window", f):
-        return
-    inp = {"check": "window", "fmt": fmt, "N": N, "seed": seed, "skip": k, "n": n, "stride": s}
-    call = f"{fmt} file object with {N} frames: seek({k}); read({n}, stride={s})"
+    if rec.subsumed("window", f) or not _offers_seek(path, fmt):
+        return  # a class that does not offer seek (NotImplementedError) has no cursor to check
+    do_seek = k > 0 or explicit_seek0
+    inp = {"check": "window", "fmt": fmt, "N": N, "seed": seed, "skip": k, "n": n, "stride": s, "seek0": bool(explicit_seek0)}
+    call = f"{fmt} file object with {N} frames: {'seek(%d); ' % k if do_seek else ''}read({n}, stride={s})"
     try:
         h = _open(path, fmt)
     except Exception:
         return
     try:
         try:
-            h.seek(k)  # also for k = 0: a class that does not offer seek has no cursor to check
+            if do_seek:
+                h.seek(k)
             first = _frame_ids(h.read(n, stride=s), fmt)
         except NotImplementedError:
             return  # seek/strided read not offered by this class: no cursor to check
@@ -397,17 +425,24 @@ def worker(args):
     fmt, Ns, seed, tier, only = args[:5]
     pre_failed = args[5] if len(args) > 5 else {}
     progress = args[6] if len(args) > 6 else None
+    workdir = args[7] if len(args) > 7 else None
     import warnings
     warnings.simplefilter("ignore")
     rec = Recorder()
     for k, v in (pre_failed or {}).items():
         rec.failed_sets[k] = [tuple(x) for x in v]
 
+    repeat = int(only.get("_repeat", 1)) if only else 1
+    state = {"prev": None}
+
     def note(case):
+        # previous and current case, replaced atomically: a corrupted heap is often noticed one case late (numpy caches small buffers)
         if progress:
-            with open(progress, "w") as fh:
-                json.dump(case, fh)
-    with Scratch("c02-" + fmt) as d:
+            with open(progress + ".tmp", "w") as fh:
+                json.dump({"prev": state["prev"], "cur": case}, fh)
+            os.replace(progress + ".tmp", progress)
+        state["prev"] = case
+    with (Scratch("c02-" + fmt) if workdir is None else _Given(workdir)) as d:
         files = {}
         for N in Ns:
             try:
@@ -442,21 +477,24 @@ def worker(args):
                 for k in range(0, N):
                     for s in STRIDES:
                         for n in range(1, N + 1):
-                            cases.append((len(feats(stride=s, skip=k)), (N, s, k, n), ("window", N, k, n, s)))
+                            cases.append((len(feats(stride=s, skip=k)), (N, s, k, n, 0), ("window", N, k, n, s, False)))
+                            if k == 0:
+                                cases.append((len(feats(stride=s, skip=k)), (N, s, k, n, 1), ("window", N, k, n, s, True)))
         for _, _, case in _sorted_cases(cases):
             if only and not _match(only, case, fmt):
                 continue
             kind, N = case[0], case[1]
             path, top, full = files[N]
             note(list(case))
-            if kind == "load":
-                case_load(rec, path, fmt, top, full, N, seed, case[2], case[3])
-            elif kind == "frame":
-                case_frame(rec, path, fmt, top, full, N, seed, case[2], case[3], case[4])
-            elif kind == "iterload":
-                case_iterload(rec, path, fmt, top, full, N, seed, case[2], case[3], case[4], case[5])
-            else:
-                case_window(rec, path, fmt, N, seed, case[2], case[3], case[4])
+            for _ in range(repeat):
+                if kind == "load":
+                    case_load(rec, path, fmt, top, full, N, seed, case[2], case[3])
+                elif kind == "frame":
+                    case_frame(rec, path, fmt, top, full, N, seed, case[2], case[3], case[4])
+                elif kind == "iterload":
+                    case_iterload(rec, path, fmt, top, full, N, seed, case[2], case[3], case[4], case[5])
+                else:
+                    case_window(rec, path, fmt, N, seed, case[2], case[3], case[4], case[5])
         # ---- lists of files
         if not only or only.get("check") == "list":
             try:
@@ -477,7 +515,8 @@ def worker(args):
                     if only and (list(sel) != only["files"] or s != only["stride"] or a != only["atoms"]):
                         continue
                     note(["list", list(sel), s, a])
-                    case_list(rec, paths, fulls, fmt, top, seed, sel, s, a)
+                    for _ in range(repeat):
+                        case_list(rec, paths, fulls, fmt, top, seed, sel, s, a)
     rec.nontrivial = {k: len(v) for k, v in rec.nontrivial.items()}
     return fmt, rec
 
@@ -493,12 +532,27 @@ def _match(only, case, fmt):
     if kind == "iterload":
         return (only["N"], only["chunk"], only["stride"], only["skip"], only["atoms"]) == case[1:6]
     if kind == "window":
-        return (only["N"], only["skip"], only["n"], only["stride"]) == case[1:5]
+        return (only["N"], only["skip"], only["n"], only["stride"], bool(only.get("seek0"))) == tuple(case[1:6])
     return False
+
+
+class _Given:
+    """a scratch directory owned (and removed) by the parent process"""
+
+    def __init__(self, d):
+        self.d = d
+
+    def __enter__(self):
+        os.makedirs(self.d, exist_ok=True)
+        return self.d
+
+    def __exit__(self, *a):
+        pass
 
 
 _BOOT = "import sys, json, pickle; a = json.load(sys.stdin); from bcc import c02; r = c02.worker(tuple(a['job'])); pickle.dump(r, open(a['out'], 'wb'))"
 _MALLOC_DEBUG = "/lib/x86_64-linux-gnu/libc_malloc_debug.so.0"
+WORKER_TIMEOUT = {"quick": 50, "thorough": 300}  # seconds per format worker (a healthy worker needs < 10 s / < 120 s)
 
 
 def _case_record(fmt, seed, case):
@@ -514,8 +568,8 @@ def _case_record(fmt, seed, case):
         _, N, c, s, k, a = case
         return "iterload", feats(stride=s, skip=k, atoms=a, chunk=c, N=N), {"check": "iterload", "fmt": fmt, "N": N, "seed": seed, "chunk": c, "stride": s, "skip": k, "atoms": a}, "iterload"
     if kind == "window":
-        _, N, k, n, s = case
-        return "window", feats(stride=s, skip=k), {"check": "window", "fmt": fmt, "N": N, "seed": seed, "skip": k, "n": n, "stride": s}, "file.read"
+        _, N, k, n, s, s0 = case
+        return "window", feats(stride=s, skip=k), {"check": "window", "fmt": fmt, "N": N, "seed": seed, "skip": k, "n": n, "stride": s, "seek0": s0}, "file.read"
     _, sel, s, a = case
     return "list", feats(stride=s, atoms=a, extra=("files>1",) if len(sel) > 1 else ()), {"check": "list", "fmt": fmt, "seed": seed, "files": list(sel), "stride": s, "atoms": a}, "load-list"
 
@@ -536,30 +590,59 @@ def isolated(job, scratch):
         prog = os.path.join(scratch, f"progress-{fmt}.json")
         if os.path.exists(prog):
             os.remove(prog)
-        arg = {"job": [fmt, Ns, seed, tier, only, pre_failed, prog], "out": out}
-        p = subprocess.run([sys.executable, "-c", _BOOT], input=json.dumps(arg), env=env, capture_output=True, text=True,
-                           cwd=os.path.dirname(os.path.dirname(os.path.abspath(__file__))))
+        arg = {"job": [fmt, Ns, seed, tier, only, pre_failed, prog, os.path.join(scratch, f"files-{fmt}-{attempt}")], "out": out}
+        try:
+            p = subprocess.run([sys.executable, "-c", _BOOT], input=json.dumps(arg), env=env, capture_output=True, text=True,
+                               cwd=os.path.dirname(os.path.dirname(os.path.abspath(__file__))), timeout=WORKER_TIMEOUT[tier])
+        except subprocess.TimeoutExpired as te:
+            p = subprocess.CompletedProcess(te.cmd, -999, "", f"timeout after {WORKER_TIMEOUT[tier]} s")
         if p.returncode == 0 and os.path.exists(out):
             with open(out, "rb") as fh:
                 fmt_, rec = pickle.load(fh)
             rec.fails = crashes + rec.fails
             return fmt, rec
-        case = None
+        st = None
         if os.path.exists(prog):
-            with open(prog) as fh:
-                case = json.load(fh)
-        if case is None or attempt == 6:
+            try:
+                with open(prog) as fh:
+                    st = json.load(fh)
+            except ValueError:
+                st = None
+        cands = [c for c in ((st or {}).get("cur"), (st or {}).get("prev")) if c]
+        if not cands or attempt == 6:
             rec = Recorder()
             rec.fails = crashes
             rec.fail("load", "worker-died", "worker", (), fmt, f"the {fmt} worker exited with code {p.returncode} outside any case: {p.stderr[-400:]}",
                      {"check": "fixture", "fmt": fmt, "seed": seed})
             return fmt, rec
+        case, confirmed = cands[0], False
+        if p.returncode != -999:
+            # which of the two cases kills an interpreter on its own (repeated, so that freed buffers really go back to malloc)?
+            for c in cands:
+                inp1 = dict(_case_record(fmt, seed, c)[2], _repeat=30)
+                a1 = {"job": [fmt, [inp1["N"]] if "N" in inp1 else Ns, seed, tier, inp1, {}, None, os.path.join(scratch, f"confirm-{fmt}-{attempt}")],
+                      "out": os.path.join(scratch, f"confirm-{fmt}-{attempt}.pkl")}
+                try:
+                    q = subprocess.run([sys.executable, "-c", _BOOT], input=json.dumps(a1), env=env, capture_output=True, text=True,
+                                       cwd=os.path.dirname(os.path.dirname(os.path.abspath(__file__))), timeout=60)
+                    died = q.returncode != 0
+                except subprocess.TimeoutExpired:
+                    died = False
+                if died:
+                    case, confirmed = c, True
+                    break
         check, f, inp, prefix = _case_record(fmt, seed, case)
         pre_failed.setdefault(check, []).append(list(f))
         msg = [ln for ln in p.stderr.splitlines() if ln.strip() and "WARNING" not in ln][-1:] or [""]
-        crashes.append(dict(check=check, clause="crash", prefix=prefix, feats=tuple(f), fmt=fmt, tail="process-killed",
-                            what=f"the interpreter died (exit code {p.returncode}; glibc: {msg[0][:120]!r}) while evaluating {inp}", input=inp,
-                            observed=f"exit code {p.returncode}", expected="a result"))
+        if p.returncode == -999:
+            crashes.append(dict(check=check, clause="hang", prefix=prefix, feats=tuple(f), fmt=fmt, tail="timeout",
+                                what=f"the {fmt} worker was still running after {WORKER_TIMEOUT[tier]} s, evaluating {inp}", input=inp,
+                                observed="timeout", expected="a result"))
+        else:
+            crashes.append(dict(check=check, clause="crash", prefix=prefix, feats=tuple(f), fmt=fmt, tail="process-killed",
+                                what=f"the interpreter died (exit code {p.returncode}; glibc heap check: {msg[0][:120]!r}) while evaluating {inp}"
+                                     f"{' (confirmed: this case alone, repeated 30 times in a fresh interpreter, dies too)' if confirmed else ' (not confirmed in isolation)'}", input=inp,
+                                observed=f"exit code {p.returncode}", expected="a result"))
     return fmt, Recorder()
 
 
@@ -628,7 +711,12 @@ def run(tier, seed, hint, only=None, formats=None):
     for f in allfails:
         chk = checks["load" if f["check"] == "frame" else f["check"]]
         fs = by[(f["check"], f["clause"], f["prefix"], f["feats"], f["tail"])]
-        where = "all-formats" if len(fs) == len(FORMATS) or (f["check"] == "window" and len(fs) == len(FORMATS) - 1) else f["fmt"]
+        if fs == set(FORMATS):
+            where = "all-formats"
+        elif fs == set(FORMATS) - HAS_TOP:
+            where = "all-formats-needing-top"
+        else:
+            where = f["fmt"]
         wc = ":".join([f["prefix"]] + list(f["feats"]) + [where] + ([f["tail"]] if f["tail"] else []))
         chk.fail(f["clause"], wc, f["what"], f["input"], observed=f["observed"], expected=f["expected"])
     return [checks["load"], checks["iterload"], checks["list"], checks["window"]]
@@ -638,6 +726,6 @@ def replay(payload):
     inp = payload.get("input") or payload.get("failing_input")
     if inp.get("check") == "fixture":
         return {"reproduced": False, "note": "fixture failures are not replayable contracts"}
-    checks = run("quick", inp.get("seed", 0), None, only=inp)
+    checks = run("quick", inp.get("seed", 0), None, only=dict(inp, _repeat=30 if payload.get("crash") or inp.get("_repeat") else 1))
     fails = [f for c in checks for f in c.failures if f["input"].get("fmt") == inp.get("fmt") or ":all-formats" in f["key"]]
     return {"reproduced": bool(fails), "failures": fails}
